@@ -6,12 +6,16 @@ autograph artifacts.  All bodies do the same thing, written with different contr
 the generated code differs (`for_stmt`, `while_stmt`, a bound method, a callable object; the harness
 also wraps `functools.partial(body_for)`):
 
-    obs(in); try: for each child i: [raise?]; obs(pre i); child(); obs(post i)   ; [raise?]
+    obs(in); try: for each child i: [raise?]; obs(pre i); drive(child()); obs(post i)   ; [raise?]
              except Boom: obs(caught) if this node catches, else re-raise
+             except AssertionError: the same, but only for a function scope's refusal of unsupported conversion
+                                    options ("... are not supported"); any other AssertionError is re-raised
     obs(out)
 
 `env` is a `c16_exec.Env`; its methods are marked as autograph artifacts, so converted code calls them
 directly (no context is entered for them).  `nid` is the node's path in the call tree.
+`env.drive(c, r)` does nothing unless the call returned a generator (child `c` is a generator function, possibly
+wrapped); then it observes (`made`), and resumes it until exhausted, observing after every resumption (`res`).
 
 `Boom` must keep `Exception.__init__`: `convert().wrapper` re-creates exceptions that crossed converted
 code via `ErrorMetadataBase.create_exception`, which keeps the type only for such classes.
@@ -28,11 +32,13 @@ def body_for(env, nid):
         for i, f, c in env.kids(nid):
             env.step(nid, i)
             env.obs(nid, 'pre', i)
-            f(env, c)
+            env.drive(c, f(env, c))
             env.obs(nid, 'post', i)
         env.last(nid)
     except Boom:
         env.handle(nid)
+    except AssertionError:
+        env.handle_refusal(nid)
     env.obs(nid, 'out')
 
 
@@ -44,12 +50,14 @@ def body_while(env, nid):
         while i < n:
             env.step(nid, i)
             env.obs(nid, 'pre', i)
-            env.kid(nid, i)(env, env.kid_id(nid, i))
+            env.drive(env.kid_id(nid, i), env.kid(nid, i)(env, env.kid_id(nid, i)))
             env.obs(nid, 'post', i)
             i += 1
         env.last(nid)
     except Boom:
         env.handle(nid)
+    except AssertionError:
+        env.handle_refusal(nid)
     env.obs(nid, 'out')
 
 
@@ -61,15 +69,54 @@ class Holder(object):
             for i, f, c in env.kids(nid):
                 env.step(nid, i)
                 env.obs(nid, 'pre', i)
-                f(env, c)
+                env.drive(c, f(env, c))
                 env.obs(nid, 'post', i)
             env.last(nid)
         except Boom:
             env.handle(nid)
+        except AssertionError:
+            env.handle_refusal(nid)
+        env.obs(nid, 'out')
+
+
+    def gbody_meth(self, env, nid):
+        env.obs(nid, 'in')
+        try:
+            for i, f, c in env.kids(nid):
+                env.step(nid, i)
+                env.obs(nid, 'pre', i)
+                env.drive(c, f(env, c))
+                env.obs(nid, 'post', i)
+                yield i
+            env.last(nid)
+        except Boom:
+            env.handle(nid)
+        except AssertionError:
+            env.handle_refusal(nid)
         env.obs(nid, 'out')
 
 
 HOLDER = Holder()
+
+
+def gbody_for(env, nid):
+    """A *generator function* with the same body: calling it (through whatever wrapper) only creates the generator;
+    the body runs while the consumer (`env.drive`, called from the parent's body) resumes it, one child per
+    resumption, and the consumer observes the context after creation and after every resumption."""
+    env.obs(nid, 'in')
+    try:
+        for i, f, c in env.kids(nid):
+            env.step(nid, i)
+            env.obs(nid, 'pre', i)
+            env.drive(c, f(env, c))
+            env.obs(nid, 'post', i)
+            yield i
+        env.last(nid)
+    except Boom:
+        env.handle(nid)
+    except AssertionError:
+        env.handle_refusal(nid)
+    env.obs(nid, 'out')
 
 
 class CallableBody(object):
@@ -82,12 +129,14 @@ class CallableBody(object):
             while i < env.nkids(nid):
                 env.step(nid, i)
                 env.obs(nid, 'pre', i)
-                env.kid(nid, i)(env, env.kid_id(nid, i))
+                env.drive(env.kid_id(nid, i), env.kid(nid, i)(env, env.kid_id(nid, i)))
                 env.obs(nid, 'post', i)
                 i += 1
             env.last(nid)
         except Boom:
             env.handle(nid)
+        except AssertionError:
+            env.handle_refusal(nid)
         env.obs(nid, 'out')
 
 
